@@ -2,12 +2,59 @@ module verif
 
 go 1.23
 
-require golang.org/x/tools v0.29.0
-
 require (
-	golang.org/x/mod v0.22.0 // indirect
-	golang.org/x/sync v0.10.0 // indirect
+	github.com/aead/siphash v1.0.1
+	github.com/btcsuite/btcd v0.24.3-0.20250318170759-4f4ea81776d6
+	github.com/btcsuite/btcd/btcec/v2 v2.3.4
+	github.com/btcsuite/btcd/btcutil v1.1.5
+	github.com/btcsuite/btcd/btcutil/psbt v1.1.8
+	github.com/btcsuite/btcd/chaincfg/chainhash v1.1.0
+	github.com/btcsuite/btclog v0.0.0-20170628155309-84c8d2346e9f
+	github.com/btcsuite/btcwallet v0.0.0
+	github.com/btcsuite/btcwallet/wallet/txauthor v1.3.5
+	github.com/btcsuite/btcwallet/wallet/txrules v1.2.2
+	github.com/btcsuite/btcwallet/wallet/txsizes v1.2.5
+	github.com/btcsuite/btcwallet/walletdb v1.5.1
+	github.com/btcsuite/btcwallet/wtxmgr v1.5.6
+	github.com/btcsuite/go-socks v0.0.0-20170105172521-4720035b7bfd
+	github.com/btcsuite/websocket v0.0.0-20150119174127-31079b680792
+	github.com/davecgh/go-spew v1.1.1
+	github.com/decred/dcrd/crypto/blake256 v1.0.1
+	github.com/decred/dcrd/dcrec/secp256k1/v4 v4.3.0
+	github.com/decred/dcrd/lru v1.1.2
+	github.com/golang/protobuf v1.5.3
+	github.com/google/go-cmp v0.6.0
+	github.com/jessevdk/go-flags v1.4.0
+	github.com/jrick/logrotate v1.0.0
+	github.com/kkdai/bstream v1.0.0
+	github.com/kr/pretty v0.3.0
+	github.com/lightninglabs/gozmq v0.0.0-20191113021534-d20a764486bf
+	github.com/lightninglabs/neutrino v0.16.0
+	github.com/lightninglabs/neutrino/cache v1.1.2
+	github.com/lightningnetwork/lnd/clock v1.0.1
+	github.com/lightningnetwork/lnd/queue v1.0.1
+	github.com/lightningnetwork/lnd/ticker v1.0.0
+	github.com/lightningnetwork/lnd/tlv v1.0.2
+	github.com/pmezard/go-difflib v1.0.0
+	github.com/rogpeppe/go-internal v1.12.0
+	github.com/stretchr/objx v0.5.2
+	github.com/stretchr/testify v1.9.0
+	go.etcd.io/bbolt v1.3.11
+	golang.org/x/crypto v0.22.0
+	golang.org/x/net v0.34.0
+	golang.org/x/sync v0.10.0
+	golang.org/x/sys v0.29.0
+	golang.org/x/term v0.19.0
+	golang.org/x/text v0.14.0
+	golang.org/x/tools v0.29.0
+	google.golang.org/genproto/googleapis/rpc v0.0.0-20231030173426-d783a09b4405
+	google.golang.org/grpc v1.59.0
+	google.golang.org/protobuf v1.33.0
+	gopkg.in/check.v1 v1.0.0-20201130134442-10cb98267c6c
+	gopkg.in/yaml.v3 v3.0.1
 )
+
+require golang.org/x/mod v0.22.0 // indirect
 
 replace (
 	github.com/btcsuite/btcwallet => /repo
@@ -16,4 +63,9 @@ replace (
 	github.com/btcsuite/btcwallet/wallet/txsizes => /repo/wallet/txsizes
 	github.com/btcsuite/btcwallet/walletdb => /repo/walletdb
 	github.com/btcsuite/btcwallet/wtxmgr => /repo/wtxmgr
+	golang.org/x/crypto => golang.org/x/crypto v0.22.0
+	golang.org/x/net => golang.org/x/net v0.24.0
+	golang.org/x/sys => golang.org/x/sys v0.19.0
+	golang.org/x/term => golang.org/x/term v0.19.0
+	golang.org/x/text => golang.org/x/text v0.14.0
 )
